@@ -63,6 +63,10 @@ def evaluate(t, env=None, _memo=None):
                 if nm.endswith('__root') and nm in core.DEFS:
                     base = nm[:-6]
                     return math.sqrt(ev(z3.Real(base)))
+                if nm in core.ROUNDINGS:
+                    how, term = core.ROUNDINGS[nm]
+                    x = ev(term)
+                    return float(math.trunc(x)) if how == 'trunc' else float(math.floor(abs(x) + 0.5)) * (1 if x >= 0 else -1)
                 if nm.startswith('sqrtc_') and nm in core.DEFS:
                     eq = core.DEFS[nm][1]
                     return math.sqrt(ev(eq.arg(1)))
